@@ -1171,7 +1171,7 @@ PROPS["C09"] = dict(
          "the hits' frames (class by cause: not a sketch candidate / response truncated by snippets / other); the engine hypothesis is tested on every request (no_sketch, top_k 10000 must return all k: engine-recall-miss otherwise). "
          "non-trivial = some request of the batch has 1 <= k <= top_k with the sketch filter applied (recall), at least one entry and one query token (cands), multi-snippet (page); distinct by memory / state / batch and by digest of the unit case",
     level_text="Unbounded theorems over the line-by-line model of the sketch pre-filter (hamming_distance, term_filter_maybe_overlaps, count_matching_top_terms, QuerySketch::from_query, score_entry, find_candidates with stable sort and truncation, "
-               "find_sketch_candidates) and of Memvid::search from the sketch block to the response (options 32 / max(500,10*top_k) / 0.0, composition with the filter built so far, doc_limit, engine call, evaluation loop, re-sort, page loop: the last four imported from C16's model), "
+               "find_sketch_candidates) and of Memvid::search from the sketch block to the response (options 32 / max(500, top_k.saturating_mul(10)) / 0.0, composition with the filter built so far, the saturating engine limit, engine call, evaluation loop, re-sort, page loop: the last three imported from C16's model), "
                "for every sketch track, query sketch, score function, engine and frame table: (1) recall -- k matching frames, k <= top_k, engine hypothesis, frames evaluable => every one of the k frames has a hit -- proved OUTSIDE two classes; "
                "(2) with no_sketch the sketch class is empty, so recall holds for all corpora outside the snippet class; (3) the sketch class characterised: the bloom side never rejects a frame sharing a token with the query (any tokenizer / hash / weights; built on C39's theorem), "
                "the candidates are exactly the entries passing overlap && hamming <= 32 cut to max_candidates, so the class needs a Hamming distance above 32, the max_candidates cut, or a misnumbered entry; (4) reopen keeps the passing frame ids when ids are 0,1,2,.. (always so on real memories: every frame gets an entry), renumbers them otherwise. "
@@ -1185,7 +1185,7 @@ PROPS["C09"] = dict(
                   "Model/RecallF32.v: a 60-line model of binary32 arithmetic on non-negative normal values (round to nearest even) for the score bits of stream cands only, checked bit for bit against the implementation on every candidate; no theorem of Properties/C09.v depends on it"],
     assumptions=["engine_recall (Section hypothesis, satisfiable: Example C09_hypotheses_satisfiable / lemma table_engine2_recall): every matching frame inside the candidate filter is among the engine's results whenever at most `limit` matching frames are inside the filter",
                  "evaluable: each matching frame is in the frame table, passes parsed.evaluate (the word occurs in its lower-cased search text) and yields at least one non-empty in-range snippet slice",
-                 "top_k * 10 <= usize::MAX (otherwise the sketch options panic in debug builds); default request: no cursor, no uri / scope, no date range / as_of (cf0 = None; the theorem is stated for any cf0 containing the matching frames)",
+                 "top_k <= usize::MAX (the Rust type; max_candidates and the engine limit saturate since repo commit 9b4da04, modelled as such: sketch_max_candidates / engine_limit in Model/Recall.v, stated locally and independent of SearchPage.doc_limit); default request: no cursor, no uri / scope, no date range / as_of (cf0 = None; the theorem is stated for any cf0 containing the matching frames)",
                  "every score is >= min_score 0.0 (zero_least), true of the f32 formula on finite non-negative operands",
                  "known findings outside which recall is proved: known_sketch (the sketch stage removes a matching frame from the candidate filter), known_snippets (the evaluated documents yield more snippets than top_k)"],
     allowed_axioms=[],
